@@ -32,6 +32,10 @@ def run_module_configs(rep, tier):
     from . import e2e_names
     for p in progs[::3]:
         e2e_names.adversarial(rng, p)
+    # injectors of one package spread over two to four files
+    for k, p in enumerate(progs):
+        if k % 2 == 1:
+            p.inj_files = 2 + k % 3
     fails = []
     base = scratch("wvc16")
     other = scratch("wvc16-a-much-longer-directory-name") + "/nested/deeper/checkout"
